@@ -22,23 +22,23 @@ PENDING = "claimed in DESIGN.md; its check is still under construction in this s
 
 CHECKS = {
  "C12": dict(engine="sessionsim", section="5 C12", technique="deterministic simulation: seeded sessions with injected I/O errors, cancellations and allocation failures (uniformly drawn or aimed at functions holding in-flight state), retries and abandoned operations, line-level interleaving of two calculations; invariant monitor (completes / finite / real / T->0 / results available) on every observation",
-   text="Seeded exploration: swarm-randomised valid configurations (all 7 interpolators x admissible orders incl. orders at or above the number of volumes, 9 crystal systems, DT 0.5-500 K, first grid rows at 0.01-5 K, mixed shear keys) are executed by simulated clients inside one process, alone, next to another live calculator, interleaved with it line by line (baton-passing threads with seeded and aimed switch points), under working-directory perturbations and as the retry after injected faults (open/read errors, cancellation and MemoryError at a seeded or aimed cij line); a self-contained invariant monitor checks that the calculation completes and that every isothermal/adiabatic modulus, average and velocity is available, finite and real where the property demands it, and the T->0 clauses. Sampling, not proof; no reference implementation is involved.",
+   text="Seeded exploration: swarm-randomised valid configurations (all 7 interpolators x admissible orders incl. orders at or above the number of volumes, 9 crystal systems, DT 0.5-500 K, first grid rows at 0.01-5 K, mixed shear keys) are executed by simulated clients inside one process, alone, next to another live calculator, interleaved with it line by line (baton-passing threads with seeded and aimed switch points), under working-directory perturbations and as the retry after injected faults (open/read errors, cancellation and MemoryError at a seeded or aimed cij line); a self-contained invariant monitor checks that the calculation completes and that every isothermal/adiabatic modulus, average and velocity is available, finite and real where the property demands it, and the T->0 clauses. Besides the random batch every run sweeps: one fault at every fault point (every open, every distinct source line) of a few seeded base scenarios, and one ping-pong switch at every source line of a few seeded two-client segments. Sampling, not proof; no reference implementation is involved.",
    note="Trusts: the world generator's notion of a valid configuration (hand-written guards listed in DESIGN.md 5/C12); numpy.isfinite / eigvalsh for the preconditions; qha's heat-capacity field as the precondition for adiabatic values. Open known findings: hermite and akima interpolators."),
  "C14": dict(engine="sessionsim", section="5 C14", technique="deterministic simulation: seeded operation- and line-level interleavings of 1-3 clients, hash seeds, cwd perturbations and directory changes inside the history, simulated file timestamps, fault injection with retry or abandonment; differential against solo fresh-fork reference runs and against fresh-calculator singleton references, byte for byte",
-   text="Seeded exploration of histories x interleavings x hash seeds x working-directory states x injected faults: every observation of every client in the session (bytes of each file written, digest of each array read, stdout of each command, exception type and message) must equal, byte for byte, the observation at the same program position of that client's solo run in a fresh fork with hash seed 0, clean directories and no faults; every read / single-entry write of the program must also equal the same read / write performed first on a fresh calculator in a pristine fork (O-order); a second calculator built from the same settings must agree with the first; plus read-twice / write-twice / re-fill idempotence and the frame condition. Histories contain directory changes, entries appearing in the working directory mid-way, dropped calculators, a simulated file clock that stands still, advances or steps back. Sampling, not proof.",
+   text="Seeded exploration of histories x interleavings x hash seeds x working-directory states x injected faults: every observation of every client in the session (bytes of each file written, digest of each array read, stdout of each command, exception type and message) must equal, byte for byte, the observation at the same program position of that client's solo run in a fresh fork with hash seed 0, clean directories and no faults; every read / single-entry write of the program must also equal the same read / write performed first on a fresh calculator in a pristine fork (O-order); a second calculator built from the same settings must agree with the first; plus read-twice / write-twice / re-fill idempotence and the frame condition. Histories contain directory changes, entries appearing in the working directory mid-way, dropped calculators, a simulated file clock that stands still, advances or steps back. Besides the random batch every run sweeps: one fault at every fault point (every open, every distinct source line) of a few seeded base scenarios, and one ping-pong switch at every source line of a few seeded two-client segments. Sampling, not proof.",
    note="Trusts: single-threaded BLAS; fork gives an identical post-import process image to reference and session; a defect that is identical in reference and session is invisible (by construction of a differential oracle)."),
  "C15": dict(engine="sessionsim", section="5 C15", technique="deterministic simulation: write histories by several clients into shared and separate working directories (incl. directory changes between construction and writing, two writers interleaved line by line) with torn / late-failing writes, open errors, cancellations, retries; checked against a simulated-disk reference model",
-   text="Seeded exploration: after every write operation and again at the end of the session, every file the simulated disk model says must exist is parsed with the simulator's own parser and compared with the documented name pattern (frozen transcription), the requested T/P grid labels, and the array obtained from the same calculator through the public attribute, converted with CODATA constants independent of pint (constant-ratio test 1e-12, unit test 1e-8); aliases and repeated writes (also by another calculator of the same settings) must be byte-identical; adiabatic and isothermal keywords must not produce identical files when the tensors differ; a write with documented keywords must complete when the calculator's own pressure field brackets the requested pressures; nothing else in the tree may change. Sampling, not proof.",
+   text="Seeded exploration: after every write operation and again at the end of the session, every file the simulated disk model says must exist is parsed with the simulator's own parser and compared with the documented name pattern (frozen transcription), the requested T/P grid labels, and the array obtained from the same calculator through the public attribute, converted with CODATA constants independent of pint (constant-ratio test 1e-12, unit test 1e-8); aliases and repeated writes (also by another calculator of the same settings) must be byte-identical; adiabatic and isothermal keywords must not produce identical files when the tensors differ; a write with documented keywords must complete when the calculator's own pressure field brackets the requested pressures; nothing else in the tree may change. Besides the random batch every run sweeps: one fault at every fault point (every open, every distinct source line) of a few seeded base scenarios, and one ping-pong switch at every source line of a few seeded two-client segments. Sampling, not proof.",
    note="Trusts: the frozen transcription of the documented keyword table (cijsim/golden/writer_rules.json); the in-memory side is the calculator's own public attribute (whether that value is physically right is C05, not claimed)."),
 
  "C04": dict(engine="tasksim", section="5 C04", technique="deterministic simulation of request histories (seeded subsets, orders, spellings; re-used and interleaved task lists; earlier requests cancelled at a seeded line) against the real task scheduler under a trace monitor; differential against singleton-request references",
    text="Seeded exploration: for seeded worlds (stub calculators with seven kinds of strain fields incl. nearly equal axial strains, and real Calculators with lattice-derived strains), the 21 singleton requests give reference values; then the full set in three orders and 30 (thorough 60) seeded request histories run on the real resolve/calculate/lookup code while a monitor stamps every evaluation, store and lookup with a sequence number and checks: graph acyclic, work list topological, every dependency of a shear task stored before it is evaluated, no task evaluated twice, every requested key (in every spelling) gets a grid-shaped value; afterwards every value must equal its singleton-request value within 1e-9 of the tensor's scale. Before a fifth of the histories an earlier request on the same calculator is cancelled at a seeded cij line and abandoned; one task-list object is re-used for a chain of requests with alternating strains; two lists are kept alive with their steps interleaved. Isotropy and axis-relabelling clauses ride along as differential checks. Sampling, not proof.",
    note="Trusts: the stub calculator exposes what the contribution classes read; tolerance 1e-9 x global scale (rounding differences observed <= 2e-16, smallest wrong-merge effect seen 1e-8). 85 % of worlds use the stub calculator, 15 % a real Calculator built from generated input files with a lattice block."),
  "C17": dict(engine="sessionsim", section="5 C17", technique="deterministic simulation (thin): write/overwrite/read histories by 1-3 clients in shared and separate directories under a simulated file clock, checked against the simulated-disk model; injected open/read/torn-write faults with retry or abandonment",
-   text="Seeded exploration: whatever the real readers return (read_energy, read_elast_data, Calculator.qha_input / elast_data) must equal EXACTLY the doubles the simulator wrote into that path (10- and 17-significant-digit tokens, every key spelling, empty or odd title lines); write_energy followed -- any number of operations later, after overwrites by smaller or equally sized data sets within the same simulated second and writes by other clients -- by read_energy returns the latest data set to the written precision, and must not fail; the fill command's stdout parses as a static table equal to the symmetry-filled parse of its input with header lines, volumes and lattice block preserved, and is produced for every sufficient table. Nothing nondeterministic is in the statement; the simulation contributes histories, timestamps and faulted retries only (see DESIGN.md 3).",
+   text="Seeded exploration: whatever the real readers return (read_energy, read_elast_data, Calculator.qha_input / elast_data) must equal EXACTLY the doubles the simulator wrote into that path (10- and 17-significant-digit tokens, every key spelling, empty or odd title lines); write_energy followed -- any number of operations later, after overwrites by smaller or equally sized data sets within the same simulated second and writes by other clients -- by read_energy returns the latest data set to the written precision, and must not fail; the fill command's stdout parses as a static table equal to the symmetry-filled parse of its input with header lines, volumes and lattice block preserved, and is produced for every sufficient table. Besides the random batch every run sweeps: one fault at every fault point (every open, every distinct source line) of a few seeded base scenarios. Nothing nondeterministic is in the statement; the simulation contributes histories, timestamps and faulted retries only (see DESIGN.md 3).",
    note="Trusts: the simulator's own file writers as ground truth (every printed token round-trips to the double kept as truth); for the fill round trip, apply_symetry_on_elast_data (real code) is the reference, as the statement defines it. Torn INPUT files are not injected (the property is conditioned on well-formed input): seeded change c17-elast-reader-islice-short-table is out of reach by design."),
  "C19": dict(engine="sessionsim", section="5 C19", technique="deterministic simulation: read-your-writes through a shared working directory after arbitrary write histories (requests interleaved with the writes, directory changes, stale and torn files, permuted or failing directory listings, two commands interleaved line by line, abandoned requests); oracle = the table on the simulated disk, parsed independently, plus exact bicubic stub tables",
-   text="Seeded exploration: during and after write histories by one or two clients (shared cwd collecting the results of runs on different grids, overwrites, torn writes and retries, clutter, permuted listing order, directory changes) extract must return exactly the row (column) of each variable's own table whose label is nearest to the request, labelled by the other coordinate, to the printed digits; extract-geotherm (default or user-named columns) must pass the geotherm's columns through and return the table entry at grid nodes (1e-6) and, for simulator-placed tables that are bicubic polynomials in (T,P), the polynomial everywhere inside the range (1e-6); both must succeed when every variable resolves to one intact table. The convergence clause for general tables off the nodes is not decided. Sampling, not proof.",
+   text="Seeded exploration: during and after write histories by one or two clients (shared cwd collecting the results of runs on different grids, overwrites, torn writes and retries, clutter, permuted listing order, directory changes) extract must return exactly the row (column) of each variable's own table whose label is nearest to the request, labelled by the other coordinate, to the printed digits; extract-geotherm (default or user-named columns) must pass the geotherm's columns through and return the table entry at grid nodes (1e-6) and, for simulator-placed tables that are bicubic polynomials in (T,P), the polynomial everywhere inside the range (1e-6); both must succeed when every variable resolves to one intact table. The convergence clause for general tables off the nodes is not decided. Besides the random batch every run sweeps: one fault at every fault point (every open, every distinct source line) of a few seeded base scenarios, and one ping-pong switch at every source line of a few seeded two-client segments. Sampling, not proof.",
    note="Trusts: the simulator's own table parser; variables resolving to no, several or torn tables, requests mixing tables on different grids and exact ties are skipped (counted in the evidence). Open known finding: NaN anywhere in a table poisons extract-geotherm."),
  "C09": dict(engine="sessionsim", section="5 C09", technique="deterministic simulation: fill operations under working-directory states (shadow names, relation files) and process history (incl. re-use of one table object after a refused call), differential against a clean-cwd solo fresh-fork reference; presentation clauses and clear-cut refusal cases ride along",
    text="Seeded exploration of the environment clauses: fill_cij / `cij fill` / Calculator with a symmetry section are issued in working directories containing directories or files named like the requested system, constraints/<system>, other systems, and next to other clients' operations; the outcome (table bytes or exception) must equal the clean-cwd solo reference; an explicit path to a user-written relations file equivalent to the packaged ones must give the packaged result (1e-9), a non-existent path must fail; a call that raised must leave the caller's table untouched and a later call on the same object must equal a call on a fresh one. Ride-along differential clauses on the same runs: column order, letter case, integer-vs-float columns, supplied values unchanged, extra columns passed through; clear-cut refusals: a table lacking every member of one relation class must be refused (accepted with ignore_rank), one contradicting a relation by 5 GPa or more must be refused (accepted with ignore_residuals), a sufficient consistent table must be accepted. NOT decided: the exact boundary ('refuses exactly when ...', residual thresholds), which needs an independent rank/threshold oracle over inputs.",
@@ -66,11 +66,11 @@ def main():
     na.sort(key=lambda x: x["property_id"])
     engines = [
         {"name": "sessionsim", "path": "/verif/cijsim", "serves_properties": [p for p in CHECKS if CHECKS[p]["engine"] == "sessionsim"],
-         "kind_free_text": "deterministic simulation of client sessions against the real cij code: seeded scenario generator, interposed open/scandir/stat seams, fault plan, baton-passing line stepper, solo fresh-fork references, simulated-disk reference model, delta-debugging minimiser, replay files"},
+         "kind_free_text": "deterministic simulation of client sessions against the real cij code: seeded scenario generator, interposed open/scandir/stat seams (simulated file timestamps), fault plan, baton-passing line stepper with seeded / aimed / ping-pong switch points, solo fresh-fork and singleton references, simulated-disk reference model, fault sweep and interleaving sweep over seeded base scenarios, delta-debugging minimiser, replay files"},
     ]
     if any(c["engine"] == "tasksim" for c in CHECKS.values()):
         engines.append({"name": "tasksim", "path": "/verif/cijsim/tasksim.py", "serves_properties": ["C04"],
-                        "kind_free_text": "deterministic simulation of request histories against cij's task scheduler with a trace monitor and solo-request references"})
+                        "kind_free_text": "deterministic simulation of request histories against cij's task scheduler with a trace monitor, cancelled earlier requests, re-used and interleaved task lists, and solo-request references"})
     m = {
         "version": 1,
         "setup_cmd": "cd /verif && ./setup.sh",
